@@ -132,7 +132,7 @@ func (s Slicer) Origins(v ssa.Value) []Origin {
 			}
 		case *ssa.Extract:
 			if c, ok := v.Tuple.(*ssa.Call); ok {
-				s.call(c, v.Index, walk, add)
+				s.call(c, flatIndex(c, v.Index, 0), walk, add)
 				return
 			}
 			walk(v.Tuple)
@@ -164,6 +164,10 @@ func (s Slicer) Origins(v ssa.Value) []Origin {
 		case *ssa.Field:
 			if s.Fields {
 				add(Origin{Kind: "field", V: v, Name: FieldOf(v)})
+			}
+			if c, idx, ok := structResult(v.X); ok {
+				s.call(c, flatIndex(c, idx, v.Field), walk, add)
+				return
 			}
 			walk(v.X)
 		case *ssa.FieldAddr:
@@ -247,6 +251,36 @@ func (s Slicer) load(addr ssa.Value, walk func(ssa.Value), add func(Origin)) {
 		}
 		// a field of a local struct: stores to that same field of the same base
 		if base, ok := a.X.(*ssa.Alloc); ok {
+			// … or of a local that holds the result struct of a call (`res, err := f()`;
+			// `res.hash`): the field is that result of the call, counted as if the
+			// struct's fields were returned one by one
+			if base.Referrers() != nil {
+				var whole ssa.Value
+				n, fieldStore := 0, false
+				for _, r := range *base.Referrers() {
+					switch x := r.(type) {
+					case *ssa.Store:
+						if x.Addr == ssa.Value(base) {
+							whole = x.Val
+							n++
+						}
+					case *ssa.FieldAddr:
+						if x.Referrers() != nil {
+							for _, rr := range *x.Referrers() {
+								if st, isSt := rr.(*ssa.Store); isSt && st.Addr == ssa.Value(x) {
+									fieldStore = true
+								}
+							}
+						}
+					}
+				}
+				if n == 1 && !fieldStore {
+					if c, idx, ok := structResult(whole); ok {
+						s.call(c, flatIndex(c, idx, a.Field), walk, add)
+						return
+					}
+				}
+			}
 			found := false
 			if base.Referrers() != nil {
 				for _, r := range *base.Referrers() {
@@ -470,4 +504,37 @@ func (s Slicer) aliasWrites(alias ssa.Value, walk func(ssa.Value), visited map[s
 		}
 	}
 	return wrote
+}
+
+// structResult: v is a struct-typed result of a call (the call's value, or an
+// extract of its tuple); returns the call and the result's tuple index.
+func structResult(v ssa.Value) (*ssa.Call, int, bool) {
+	if _, isS := v.Type().Underlying().(*types.Struct); !isS {
+		return nil, 0, false
+	}
+	switch x := v.(type) {
+	case *ssa.Call:
+		return x, 0, true
+	case *ssa.Extract:
+		if c, ok := x.Tuple.(*ssa.Call); ok {
+			return c, x.Index, true
+		}
+	}
+	return nil, 0, false
+}
+
+// flatIndex numbers the results of a call as if every struct-typed result
+// were returned field by field: a helper changed from `(otp, hash string, err
+// error)` to `(newOTP, error)` with newOTP{otp, hash} keeps its numbering.
+func flatIndex(c *ssa.Call, idx, field int) int {
+	res := c.Call.Signature().Results()
+	flat := 0
+	for i := 0; i < idx && i < res.Len(); i++ {
+		if st, ok := res.At(i).Type().Underlying().(*types.Struct); ok {
+			flat += st.NumFields()
+		} else {
+			flat++
+		}
+	}
+	return flat + field
 }
